@@ -40,6 +40,7 @@ pub type CelValueMap = HashMap<String, CelValue>;
 pub enum CelValue {
     Int(i64),
     UInt(u64),
+    #[serde(with = "float_serde")]
     Float(f64),
     Bool(bool),
     String(String),
@@ -72,6 +73,49 @@ pub enum CelValue {
     },
     #[serde(skip_serializing, skip_deserializing)]
     Dyn(Arc<dyn CelValueDyn>),
+}
+
+// JSON has no spelling for NaN and the infinities (serde_json writes them as null, which
+// cannot be read back as a number): in human readable formats they travel as strings.
+mod float_serde {
+    use serde::{de::Error, Deserialize, Deserializer, Serializer};
+
+    pub fn serialize<S: Serializer>(val: &f64, serializer: S) -> Result<S::Ok, S::Error> {
+        if serializer.is_human_readable() && !val.is_finite() {
+            serializer.serialize_str(if val.is_nan() {
+                "NaN"
+            } else if *val > 0.0 {
+                "Infinity"
+            } else {
+                "-Infinity"
+            })
+        } else {
+            serializer.serialize_f64(*val)
+        }
+    }
+
+    #[derive(Deserialize)]
+    #[serde(untagged)]
+    enum NumberOrName {
+        Number(f64),
+        Name(String),
+    }
+
+    pub fn deserialize<'de, D: Deserializer<'de>>(deserializer: D) -> Result<f64, D::Error> {
+        if !deserializer.is_human_readable() {
+            return f64::deserialize(deserializer);
+        }
+
+        match NumberOrName::deserialize(deserializer)? {
+            NumberOrName::Number(val) => Ok(val),
+            NumberOrName::Name(name) => match name.as_str() {
+                "NaN" => Ok(f64::NAN),
+                "Infinity" => Ok(f64::INFINITY),
+                "-Infinity" => Ok(f64::NEG_INFINITY),
+                other => Err(D::Error::custom(format!("{} is not a number", other))),
+            },
+        }
+    }
 }
 
 impl CelValue {
